@@ -415,14 +415,19 @@ func nestedComplement(loc gts.Location) bool {
 func init() {
 	register(&Check{ID: "C19", Level: "model_checking", Quick: 150 * time.Second, Thor: 30 * time.Minute,
 		Run: func(r *engine.Run) bool {
-			r.Rule = "(a) every selector string of <=k tokens over {gene,CDS,/,=,a,b,x,y,.,*,^,$} x 36 features (3 keys x 12 qualifier sets incl. multi-valued and empty values); (b) And/Or/Not trees of depth <=2 over atomic key/qualifier/bounds/strand filters x features over a location domain; (c) Filter over every table of 0..3 features; (d) every insertion sequence of 1..3 locations (4 on a subset) incl. source keys; (e) all triples for the order axioms; distinct key = the case; non-trivial = selector with >=1 clause, resp. sequence with >=2 features"
+			r.Rule = "(a) every selector string of <=k tokens over {gene,CDS,/,=,a,b,x,y,.,*,^,$} x 36 features (3 keys x 12 qualifier sets incl. multi-valued and empty values); (b) And/Or/Not trees of depth <=2 over atomic key/qualifier/bounds/strand filters x features over a location domain; (c) Filter over every table of 0..3 features; (d) every insertion sequence of 1..3 locations (4 on a subset) incl. source keys; (e) all triples for the order axioms; distinct key = the case (selector/boolean cases are generated exactly once by a mixed-radix index and counted without a hash set); non-trivial = selector with >=1 clause, resp. sequence with >=2 features"
 			complete := true
 			eval := func(c c19Case, nontrivial bool, size int) {
 				r.Evals.Add(1)
 				r.Transitions.Add(1)
 				ok, sig, detail := c19Eval(c)
 				if nontrivial {
-					r.Distinct.Add(mustJSON(c))
+					if c.Kind == "selector" || c.Kind == "bool" {
+						// (string, feature) and (expression, feature) pairs come from mixed-radix indices over duplicate-free lists: each exactly once
+						r.DistinctByConstruction.Add(1)
+					} else {
+						r.Distinct.Add(mustJSON(c))
+					}
 				}
 				if !ok {
 					r.Fail(engine.Failure{Sig: sig, Case: c, Detail: detail, Size: size})
